@@ -181,7 +181,8 @@ pub fn decompress_two_chunks_partial_group() {
     check(&cont, &exp);
 }
 
-/// two compressed chunks; the first ends exactly after a FULL group of 8 tokens  (known finding C18: expected to FAIL)
+/// two compressed chunks; the first ends exactly after a FULL group of 8 tokens (the shape of the fixed C18 defect:
+/// the real function used to eat the low byte of the second chunk header)
 #[kani::proof]
 #[kani::unwind(20)]
 pub fn decompress_two_chunks_full_group() {
